@@ -185,25 +185,41 @@ theorem C02_length_and_origin (c : Cfg V) (objs : List (ObjItem V)) (dss : List 
   simp only [RenderSpec.out, List.getElem?_map, List.getElem?_range hs, Option.map_some]
 
 /-- **`C02_block_independent_os`** — the property, for the renderer model with the partitioned overlap-save convolver
-inside `ObjectRenderer` (`Model/OverlapSave.lean`; via `render_refines_spec_os`) and with the quantifier spelled out
-(`SessionWF`: accepted timelines, `block_size ≥ 1`, tracks inside the input, decode matrices as wide as the item has
-tracks, a decorrelation filter with ≥ 1 tap; `InputOK`: frames of `n_in` samples): the rendered audio (all returned
-blocks and the tail, concatenated) does not depend on the blocking; every blocking succeeds. -/
+inside `ObjectRenderer` and the numpy exceptions of out-of-range tracks / mis-shaped decode matrices
+(`Model/OverlapSave.lean`; via `render_refines_spec_os`), inside the static conditions (`SessionWF`: accepted timelines,
+`block_size ≥ 1`, tracks inside the input, decode matrices as wide as the item has tracks, a decorrelation filter with
+≥ 1 tap): the rendered audio (all returned blocks and the tail, concatenated) does not depend on the blocking; every
+blocking succeeds. -/
 theorem C02_block_independent_os (c : Cfg V) (objs : List (ObjItem V)) (dss : List (DsItem V)) (hoas : List (HoaItem V))
-    (hok : SessionWF c objs dss hoas) (p q : List (List (List Rat))) (h : p.flatten = q.flatten)
-    (hin : InputOK c p.flatten) :
+    (hok : SessionWF c objs dss hoas) (p q : List (List (List Rat))) (h : p.flatten = q.flatten) :
     renderAllOS c objs dss hoas p = renderAllOS c objs dss hoas q := by
-  rw [render_refines_spec_os c objs dss hoas hok p hin, render_refines_spec_os c objs dss hoas hok q (h ▸ hin), h]
+  rw [render_refines_spec_os_ok c objs dss hoas hok.ok hok.taps_ne hok.index p,
+    render_refines_spec_os_ok c objs dss hoas hok.ok hok.taps_ne hok.index q, h]
+
+/-- **`C02_block_independent_os_of_ok`** — without the static index conditions (accepted timelines only): whenever two
+blockings of the same input both return audio, it is the same audio.  (A session outside `IndexOK` may raise; WHICH
+numpy exception is raised first can depend on the blocking — e.g. an HOA item whose second decode matrix is mis-shaped,
+followed by an item with a track outside the input — so equality of the `Except` values is not claimed there.) -/
+theorem C02_block_independent_os_of_ok (c : Cfg V) (objs : List (ObjItem V)) (dss : List (DsItem V))
+    (hoas : List (HoaItem V)) (hok : SessionOK c objs dss hoas) (hf : c.taps ≠ []) (p q : List (List (List Rat)))
+    (h : p.flatten = q.flatten) (a b : List V) (ha : renderAllOS c objs dss hoas p = .ok a)
+    (hb : renderAllOS c objs dss hoas q = .ok b) : a = b := by
+  rcases render_refines_spec_os c objs dss hoas hok hf p with h1 | ⟨-, h1⟩
+  · rcases render_refines_spec_os c objs dss hoas hok hf q with h2 | ⟨-, h2⟩
+    · rw [h1] at ha; rw [h2] at hb; cases ha; cases hb; rw [h]
+    · rw [hb] at h2; rcases h2 with h2 | h2 | h2 <;> cases h2
+  · rw [ha] at h1; rcases h1 with h1 | h1 | h1 <;> cases h1
 
 /-- **`C02_length_and_origin_os`** — the same for `C02_length_and_origin`: exactly the input's length, frame `s` is
 output time `s`. -/
 theorem C02_length_and_origin_os (c : Cfg V) (objs : List (ObjItem V)) (dss : List (DsItem V)) (hoas : List (HoaItem V))
-    (hok : SessionWF c objs dss hoas) (parts : List (List (List Rat))) (_hin : InputOK c parts.flatten) :
+    (hok : SessionWF c objs dss hoas) (parts : List (List (List Rat))) :
     ∃ out, renderAllOS c objs dss hoas parts = .ok out ∧ out.length = parts.flatten.length ∧
       ∀ s, s < parts.flatten.length →
         out[s]? = some (RenderSpec.outAt c objs dss hoas parts.flatten s) := by
-  rw [renderAllOS_eq c hok.ok.block_size_pos hok.taps_ne]
-  exact C02_length_and_origin c objs dss hoas hok.ok parts
+  refine ⟨_, render_refines_spec_os_ok c objs dss hoas hok.ok hok.taps_ne hok.index parts, by simp [RenderSpec.out], ?_⟩
+  intro s hs
+  simp only [RenderSpec.out, List.getElem?_map, List.getElem?_range hs, Option.map_some]
 
 end Full
 
@@ -248,21 +264,23 @@ theorem C02_length_and_origin_ts (c : Cfg V) (objs : List (ObjItemTS V)) (dss : 
   simp only [outTS, List.getElem?_map, List.getElem?_range hs, Option.map_some]
 
 /-- **`C02_block_independent_ts_os`** — `C02_block_independent_ts` for the renderer with track processors AND the
-partitioned overlap-save convolver (`renderAllTSOS`, `Model/OverlapSave.lean`). -/
+partitioned overlap-save convolver AND the `np.dot` exception (`renderAllTSOS`, `Model/OverlapSave.lean`), inside
+`SessionWFTS` (decode matrices as wide as the item has track specs). -/
 theorem C02_block_independent_ts_os (c : Cfg V) (objs : List (ObjItemTS V)) (dss : List (DsItemTS V))
     (hoas : List (HoaItemTS V)) (hok : SessionWFTS c objs dss hoas) (p q : List (List (List Rat)))
-    (h : p.flatten = q.flatten) (hin : InputOK c p.flatten) :
+    (h : p.flatten = q.flatten) :
     renderAllTSOS c objs dss hoas p = renderAllTSOS c objs dss hoas q := by
-  rw [render_eq_outTS_os c objs dss hoas hok p hin, render_eq_outTS_os c objs dss hoas hok q (h ▸ hin), h]
+  rw [render_eq_outTS_os_ok c objs dss hoas hok.ok hok.taps_ne hok.hoa_gains p,
+    render_eq_outTS_os_ok c objs dss hoas hok.ok hok.taps_ne hok.hoa_gains q, h]
 
 /-- **`C02_length_and_origin_ts_os`** — the same for `C02_length_and_origin_ts`. -/
 theorem C02_length_and_origin_ts_os (c : Cfg V) (objs : List (ObjItemTS V)) (dss : List (DsItemTS V))
-    (hoas : List (HoaItemTS V)) (hok : SessionWFTS c objs dss hoas) (parts : List (List (List Rat)))
-    (_hin : InputOK c parts.flatten) :
+    (hoas : List (HoaItemTS V)) (hok : SessionWFTS c objs dss hoas) (parts : List (List (List Rat))) :
     ∃ out, renderAllTSOS c objs dss hoas parts = .ok out ∧ out.length = parts.flatten.length ∧
       ∀ s, s < parts.flatten.length → out[s]? = some (outAtTS c objs dss hoas parts.flatten s) := by
-  rw [renderAllTSOS_eq c hok.ok.block_size_pos hok.taps_ne]
-  exact C02_length_and_origin_ts c objs dss hoas hok.ok parts
+  refine ⟨_, render_eq_outTS_os_ok c objs dss hoas hok.ok hok.taps_ne hok.hoa_gains parts, by simp [outTS], ?_⟩
+  intro s hs
+  simp only [outTS, List.getElem?_map, List.getElem?_range hs, Option.map_some]
 
 end
 
